@@ -231,6 +231,13 @@ def r10_3(ctx, rep, roles, P="C10"):
                                 c[1][2][0] == lv.DEAD or T.last_field(c[1][2][0]) == (FD, "dead_nodes")):
                             contains = c[2]
                     good = len(lr) == 1 and not li and not dr and (len(di) == (0 if contains else 1)) and contains is not None
+                    # `dead_nodes.entry(id).or_insert_with(Instant::now)`: insert-if-absent in one call (never overwrites the time of death)
+                    ent = [e for e in row.calls() if sym.strip_all_generics(e[1]).endswith("HashMap::entry") and e[2] and e[2][0] == lv.DEAD]
+                    ori = [e for e in row.calls() if sym.strip_all_generics(e[1]).split("::")[-1] in ("or_insert_with", "or_insert") and "Entry" in e[1]]
+                    if contains is None and len(ent) == 1 and len(ori) == 1 and not di:
+                        src = T.resolve_locals(lv.eng, row.store, ori[0][2][0])
+                        good = len(lr) == 1 and not li and not dr and src[0] == "call" and sym.strip_all_generics(src[1]).endswith("HashMap::entry") and src[2][0] == lv.DEAD
+                        di = ent
                 if not good:
                     bad = bad or "phi=%s threshold=%s: live+%d live-%d dead+%d dead-%d" % (pv, thr, len(li), len(lr), len(di), len(dr))
                 for e in li + lr + di + dr:
